@@ -843,7 +843,7 @@ Print Assumptions C08_contain_pre_std.
 Theorem C08_std_contain_agree : forall dbg hp hpo hd shp shs b sb input,
   usv_list input -> full_base dbg shs b sb ->
   has_opaque_path sb = false -> list_eqb (su_scheme sb) str_file = false ->
-  contain_pre b input = true -> known_c01 (Some b) input = 0 ->
+  contain_pre b input = true -> known_c01_v1 (Some b) input = 0 ->
   host_hyp3 hp hpo hd shp shs (Some sb) input ->
   exists su, spec_basic_url_parse shp input (Some sb) = BDone su /\ spec_same_front sb su
     /\ ((join dbg hp hpo hd b input = PErr Overflow /\ U32_MAX_P < nlen (get_href shs su))
@@ -855,7 +855,7 @@ Print Assumptions C08_std_contain_agree.
 Theorem C08_std_contain_agree_model : forall dbg idna, IdnaOK idna -> forall b sb input,
   usv_list input -> full_base dbg spec_host_serializer b sb ->
   has_opaque_path sb = false -> list_eqb (su_scheme sb) str_file = false ->
-  contain_pre b input = true -> known_c01 (Some b) input = 0 ->
+  contain_pre b input = true -> known_c01_v1 (Some b) input = 0 ->
   exists su, spec_basic_url_parse (spec_host_parser idna) input (Some sb) = BDone su /\ spec_same_front sb su
     /\ ((parse_url dbg (host_parse idna) host_parse_opaque host_display None (Some b) input = PErr Overflow
          /\ U32_MAX_P < nlen (get_href spec_host_serializer su))
@@ -866,7 +866,7 @@ Proof. exact std_contain_agree_model. Qed.
 Print Assumptions C08_std_contain_agree_model.
 (* full_base pairs exist: every input outside Known_C01, parsed without a base by the model and by the Standard *)
 Theorem C08_parsed_full_base : forall dbg idna, IdnaOK idna -> forall input u su,
-  usv_list input -> known_c01 None input = 0 ->
+  usv_list input -> known_c01_v1 None input = 0 ->
   parse_url dbg (host_parse idna) host_parse_opaque host_display None None input = POk u ->
   spec_basic_url_parse (spec_host_parser idna) input None = BDone su ->
   full_base dbg spec_host_serializer u su.
